@@ -75,6 +75,11 @@ JUNK = [
     {"nx_core": 7},
     {"psinorm_sol": 1.15},
     {"curvature_type": "bxkappa"},
+    {"refine_atol": 1.0e-5}, {"refine_methods": ["line"]},
+    {"poloidal_spacing_method": "monotonic"}, {"N_norm_prefactor": 3.0},
+    {"finecontour_atol": 1.0e-6}, {"finecontour_maxits": 2},
+    {"follow_perpendicular_rtol": 1.0e-3}, {"xpoint_offset": 0.3},
+    {"psi_spacing_separatrix_multiplier": 0.9}, {"wall_point_exclude_radius": 0.05},
 ]
 
 BAD = [
@@ -111,7 +116,7 @@ def make_case(rng, allow_method_change=False, faults_ok=False, geoms=GEOMS, np_c
     while len(ops) < nops:
         k = rng.choices(("regrid", "return", "repeat", "junk", "bad", "outside", "write",
                          "fault"),
-                        weights=(5, 2, 1, 2, 1.5, 2.5, 1.5, 2.0 if faults_ok else 0))[0]
+                        weights=(5, 2, 1, 3, 1.5, 2.5, 1.5, 2.0 if faults_ok else 0))[0]
         if k == "regrid":
             s = dict(rng.choice(pool))
             if method_change and rng.random() < 0.5:
@@ -126,7 +131,11 @@ def make_case(rng, allow_method_change=False, faults_ok=False, geoms=GEOMS, np_c
             ops.append({"op": "regrid", "s": s})
         elif k == "junk":
             s = dict(rng.choice(pool))
-            ops.append({"op": "regrid", "s": s, "junk": dict(rng.choice(JUNK))})
+            # several non-nonorthogonal options at once: none of them may take effect
+            junk = {}
+            for j in rng.sample(JUNK, 4):
+                junk.update(j)
+            ops.append({"op": "regrid", "s": s, "junk": junk})
             visited.append(s)
         elif k == "bad":
             ops.append({"op": "regrid", "s": dict(rng.choice(BAD)), "expect": "refused"})
